@@ -134,16 +134,30 @@ def run(ctx):
         xml_calls = []
         s = Obj(scls, {"xml": lambda interp, a, k, n: (xml_calls.append(1), root)[1]}, name="survey")
         it = ctx.interp("C15.R1")
-        it.reset([])
-        v = it.call_function(fn, [s], {}, None, fn.node)
+        outs_ = list(explore(it, lambda: it.call_function(fn, [s], {}, None, fn.node)))
+        # every path of the serialiser must produce the same thing; a path that raises, or several different results
+        # (e.g. a filter over the lines of the serialised text), is not "declaration + the writer's output"
+        good = [o for o in outs_ if o[1][0] == "return"]
+        if len(good) != len(outs_) or not good:
+            bad_o = next(o for o in outs_ if o[1][0] != "return") if len(good) != len(outs_) else None
+            r1.fail(f"Survey._to_{nm}_xml", "the serialiser evaluates to declaration + one serialisation of self.xml() on every path", fn.loc(),
+                    why_fail=f"a path raises {bad_o[1][1].exc_name}{bad_o[1][1].exc_args}" if bad_o else "no path returns")
+            recs[nm] = (None, calls, len(xml_calls))
+            continue
+        v = good[0][1][1]
+        if len(good) > 1:
+            xml_calls[:] = xml_calls[:1]
+            calls[:] = calls[:1]
         recs[nm] = (v, calls, len(xml_calls))
     for nm in ("ugly", "pretty"):
         v, calls, nx = recs[nm]
+        if v is None:
+            continue
         parts = flatten(v)
         ok = nx == 1 and len(calls) == 1 and len(parts) == 2 and isinstance(parts[0], str) and isinstance(parts[1], Sym) and parts[1].name == "SERIALISED"
         r1.check(ok, f"Survey._to_{nm}_xml", "result is <declaration literal> + one serialisation of self.xml(), nothing else", (ugly if nm == "ugly" else pretty).loc(),
                  why_fail=f"value={v!r} calls={calls}")
-    if all(isinstance(flatten(recs[n][0])[0], str) for n in recs):
+    if all(recs[n][0] is not None and isinstance(flatten(recs[n][0])[0], str) for n in recs):
         du, dp = flatten(recs["ugly"][0])[0], flatten(recs["pretty"][0])[0]
         r1.check(du.strip() == dp.strip() and du.strip().startswith("<?xml") and du.strip().endswith("?>"), "Survey:xml declaration",
                  "both modes use the same XML declaration up to trailing whitespace", ugly.loc(), why_fail=f"{du!r} vs {dp!r}")
